@@ -145,6 +145,12 @@ def real_sleep(s: float) -> None:
     _real["sleep"](s)
 
 
+def set_active(clock: "VClock | None") -> None:
+    """install a clock without scoping (multi-threaded executions)"""
+    global _active
+    _active = clock
+
+
 class use_clock:
     def __init__(self, clock: VClock) -> None:
         self.clock = clock
